@@ -2,5 +2,5 @@ package hx
 
 // AllStreams lists every correspondence stream of the harness.
 func AllStreams() []*Stream {
-	return []*Stream{NLStream, HistStream, EqStream, DiffStream, AliasStream, SpdxStream, CdxStream, SniffStream, ParseStream, SerStream, OptsStream, StoreStream, CrashStream, ConcStream, TablesStream}
+	return []*Stream{NLStream, HistStream, EqStream, DiffStream, AliasStream, SpdxStream, CdxStream, SniffStream, ParseStream, SerStream, OptsStream, StoreStream, CrashStream, ConcStream, TablesStream, BigStream}
 }
